@@ -133,13 +133,34 @@ def if_condition_layouts():
         + "    if a = '1' and   -- a is set\n       b = '0'       -- b is cleared\n    then\n      q <= '1';\n"
         + "    elsif -- comment behind the keyword\n      (b = '0') then\n      q <= '0';\n"
         + "    elsif\n      (a = '0' and b = '1')\n    then\n      q <= 'Z';\n"
-        + "    elsif (a = 'Z')   -- already in parentheses\n    then\n      q <= 'X';\n    end if;\n\n"
+        + "    elsif (a = 'Z')   -- already in parentheses\n    then\n      q <= 'X';\n"
+        + "    elsif a = 'U' and b = 'U' -- both inputs\n                              -- are checked\n    then\n      q <= 'U';\n    end if;\n\n"
         + "  end process proc_label;\n\nend architecture rtl;\n"
+    )
+
+
+def repeated_on_one_line():
+    """one rule has several violations with the same solution text on one line (every report must list each of them)"""
+    return (
+        "library ieee;\nuse ieee.std_logic_1164.all;\n\nentity rep is\n  port (\n    a, b, c : in std_logic;\n    s1, s2, s3 : in std_logic;\n    q : out std_logic\n  );\nend entity rep;\n\n"
+        + "architecture rtl of rep is\n\nbegin\n\n  q <= (a AND b) OR (s1 AND c) OR (s2 AND s3);\n\n  p_x : process (a, b) is\n  begin\n    if (a = '1' AND b = '1' AND c = '1') then\n      null;\n    end if;\n  end process p_x;\n\nend architecture rtl;\n"
+    )
+
+
+def nested_record_names():
+    """objects used through nested record elements (obj.a.b is ONE token) with another letter case than their declaration"""
+    return (
+        "library ieee;\nuse ieee.std_logic_1164.all;\n\nentity recs is\n  port (\n    clk : in std_logic\n  );\nend entity recs;\n\n"
+        + "architecture rtl of recs is\n\n  signal Axi_Bus : bus_t;\n  signal plain_sig : std_logic;\n  constant C_Cfg : cfg_t := c_default;\n\nbegin\n\n"
+        + "  AXI_BUS.aw.valid <= '1';\n  axi_bus.w.data.low <= PLAIN_SIG;\n  Plain_Sig <= AXI_BUS.b.ready when c_cfg.mode.fast = '1' else '0';\n\n"
+        + "  u_sub : entity work.sub\n    port map (\n      addr => AXI_BUS.aw.addr,\n      clk  => clk\n    );\n\nend architecture rtl;\n"
     )
 
 
 def all_designs():
     d = {}
+    d["repeated_on_one_line"] = repeated_on_one_line()
+    d["nested_record_names"] = nested_record_names()
     d["if_condition_layouts"] = if_condition_layouts()
     d["dashes_in_literals"] = dashes_in_literals()
     d["unindented_tight"] = unindented_tight()
